@@ -3,7 +3,7 @@ use rusty_pc::*;
 
 use crate::expr::{expression_pos_p, ws_expr_pos_p};
 use crate::input::StringView;
-use crate::pc_specific::{WithPos, keyword};
+use crate::pc_specific::{WithPos, keyword, lead_opt_ws};
 use crate::tokens::minus_sign;
 use crate::{ExpressionPos, ExpressionPosTrait, Keyword, ParserError, UnaryOperator};
 
@@ -19,7 +19,8 @@ fn unary_minus()
     minus_sign()
         .map(|_| UnaryOperator::Minus)
         .with_pos()
-        .and_tuple(expression_pos_p().or_expected("expression after -"))
+        // blanks are allowed between the sign and its operand, e.g. `X = - 1`
+        .and_tuple(lead_opt_ws(expression_pos_p()).or_expected("expression after -"))
 }
 
 fn unary_not()
